@@ -64,32 +64,41 @@ def check_search_with_offset(rep, crate):
         rep.bad('FP-INIT', 'FP-INIT:search_with_offset', where, f'iteration starts at {T.show(init)}', '1', fn=fn,
                 why='starting at 0 returns 0 for every workload with w(0)=0; starting higher can overshoot the least solution')
 
-    # 2 -- loop guard: continue iff H <= limit (inclusive)
-    brk = [e for e in inner if e['kind'] == 'break']
-    want_break = (T.tnot(T.cmp('Le', H, limit)),)
-    if len(brk) == 1 and brk[0]['pc'] == want_break:
-        rep.ok('FP-GUARD', 'FP-GUARD:search_with_offset', where, 'loop continues while assumed <= limit (inclusive)', fn=fn)
+    # exits of the loop: a `break` leaves with the function's fall-through value, a `return` with its own value.
+    # (`while c {..}; Err(..)` and `loop { if !c { return Err(..) } .. }` have the same exit set.)
+    exits = []
+    for e in inner:
+        if e['kind'] == 'ret':
+            exits.append((frozenset(e['pc']), e['value']))
+        elif e['kind'] == 'break':
+            exits.append((frozenset(e['pc']), top))
+    want_err = ('err', T.struct(DLE, {'offset': offset, 'limit': limit}))
+    in_range = T.cmp('Le', H, limit)
+    conv = T.cmp('Le', B, H)
+
+    def show_exits(xs):
+        return '; '.join(f"leave with {T.show(v)[:90]} when {' && '.join(sorted(T.show(c) for c in pc)) or 'always'}" for pc, v in xs)
+
+    # 2 -- the iteration is abandoned exactly when assumed > limit (inclusive bound)
+    errs = [x for x in exits if isinstance(x[1], tuple) and x[1] and x[1][0] == 'err']
+    if len(errs) == 1 and errs[0][0] == frozenset([T.tnot(in_range)]):
+        rep.ok('FP-GUARD', 'FP-GUARD:search_with_offset', where, 'the iteration is abandoned exactly when assumed > limit (it continues while assumed <= limit, inclusive)', fn=fn)
     else:
-        got = [' && '.join(T.show(x) for x in b['pc']) for b in brk]
-        rep.bad('FP-GUARD', 'FP-GUARD:search_with_offset', where, f'loop is left when {got}',
-                f'left exactly when {T.show(want_break[0])}', fn=fn,
+        rep.bad('FP-GUARD', 'FP-GUARD:search_with_offset', where, show_exits(errs) or 'no divergence exit',
+                f'abandoned exactly when {T.show(T.tnot(in_range))}', fn=fn,
                 why='a fixed point equal to the limit must still be found; a laxer guard lets Ok exceed the limit')
 
-    # 3 -- Ok only under bound <= assumed, payload is the bound
-    rets = [e for e in inner if e['kind'] == 'ret']
-    ok3 = len(rets) == 1 and rets[0]['value'] == ('ok', B) and T.cmp('Le', B, H) in rets[0]['pc'] \
-        and len(rets[0]['pc']) == 2
-    fact = '; '.join(f"return {T.show(r['value'])} when {' && '.join(T.show(x) for x in r['pc'])}" for r in rets)
-    exp = f'return ok({T.show(B)}) when <loop guard> && {T.show(T.cmp("Le", B, H))}'
-    if ok3:
-        rep.ok('FP-OK', 'FP-OK:search_with_offset', where, fact, exp, fn=fn)
+    # 3 -- Ok only on convergence (bound <= assumed), payload is the bound
+    oks = [x for x in exits if isinstance(x[1], tuple) and x[1] and x[1][0] == 'ok']
+    exp = f'leave with ok({T.show(B)}) when {T.show(in_range)} && {T.show(conv)}'
+    if len(oks) == 1 and oks[0][1] == ('ok', B) and oks[0][0] == frozenset([in_range, conv]):
+        rep.ok('FP-OK', 'FP-OK:search_with_offset', where, show_exits(oks), exp, fn=fn)
     else:
-        rep.bad('FP-OK', 'FP-OK:search_with_offset', where, fact or 'no return inside the loop', exp, fn=fn,
+        rep.bad('FP-OK', 'FP-OK:search_with_offset', where, show_exits(oks) or 'no Ok exit inside the loop', exp, fn=fn,
                 why='the payload must be service_time(workload(assumed)) - offset (not the assumed value), returned exactly on convergence')
 
     # 4 -- strict progress: the only assignment is assumed := bound on the complementary branch
-    ok4 = len(assigns) == 1 and assigns[0]['value'] == B and T.tnot(T.cmp('Le', B, H)) in assigns[0]['pc'] \
-        and len(assigns[0]['pc']) == 2
+    ok4 = len(assigns) == 1 and assigns[0]['value'] == B and frozenset(assigns[0]['pc']) == frozenset([in_range, T.tnot(conv)])
     fact = '; '.join(f"{a['name']} := {T.show(a['value'])} when {' && '.join(T.show(x) for x in a['pc'])}" for a in assigns)
     if ok4:
         rep.ok('FP-STEP', 'FP-STEP:search_with_offset', where, fact, fn=fn)
@@ -98,7 +107,7 @@ def check_search_with_offset(rep, crate):
                 why='any other update breaks leastness or termination of the Kleene iteration')
 
     # 5 -- non-interference: the limit never reaches an Ok payload
-    leaks = [r for r in rets if T.mentions(r['value'], limit)]
+    leaks = [x for x in oks if T.mentions(x[1], limit)]
     oks_top = [x for x in T.subterms(top) if isinstance(x, tuple) and x and x[0] == 'ok' and T.mentions(x, limit)]
     if leaks or oks_top:
         rep.bad('LIM-NI', 'LIM-NI:search_with_offset', where, 'divergence_limit reaches an Ok payload', 'limit only in the loop guard and the Err payload', fn=fn,
@@ -106,12 +115,11 @@ def check_search_with_offset(rep, crate):
     else:
         rep.ok('LIM-NI', 'LIM-NI:search_with_offset', where, 'divergence_limit reaches only the loop guard and the Err payload', fn=fn)
 
-    # 6 -- after the loop: Err(DivergenceLimitExceeded{offset, limit}) from the parameters, unmodified
-    want = ('err', T.struct(DLE, {'offset': offset, 'limit': limit}))
-    if top == want:
-        rep.ok('FP-ERR', 'FP-ERR:search_with_offset', where, f'falls through to {T.show(top)}', fn=fn)
+    # 6 -- the divergence exit carries Err(DivergenceLimitExceeded{offset, limit}) built from the parameters, unmodified
+    if len(errs) == 1 and errs[0][1] == want_err:
+        rep.ok('FP-ERR', 'FP-ERR:search_with_offset', where, f'the divergence exit yields {T.show(want_err)}', fn=fn)
     else:
-        rep.bad('FP-ERR', 'FP-ERR:search_with_offset', where, f'falls through to {T.show(top)}', T.show(want), fn=fn)
+        rep.bad('FP-ERR', 'FP-ERR:search_with_offset', where, show_exits(errs) or f'falls through to {T.show(top)}', T.show(want_err), fn=fn)
 
 
 def check_search(rep, crate, cfgname):
